@@ -63,6 +63,13 @@ C16_Port(v, o) == \A i \in 1..Len(o.plan) : o.plan[i].port = v.port
 C16(v, o) == /\ C16_Permutation(v, o) /\ C16_PreferredFirst(v, o) /\ C16_OtherSecond(v, o)
              /\ C16_RestKeepsOrder(v, o) /\ C16_Port(v, o)
 
+(* the same clause observed where it is decided: with one attempt at a time and every candidate accepting, the only *)
+(* connection ever started is the head of the resulting order                                                     *)
+C16_FirstStarted(v, o) ==
+  /\ Len(o.plan) = 1
+  /\ Key(o.plan[1]) = Key(v.list[IF P(v) > 0 THEN P(v) ELSE Q(v)])
+  /\ C16_Port(v, o)
+
 C16_Clauses(v, o) ==
   (IF C16_Permutation(v, o) THEN {} ELSE {"C16_Permutation"}) \cup
   (IF C16_PreferredFirst(v, o) THEN {} ELSE {"C16_PreferredFirst"}) \cup
